@@ -417,7 +417,7 @@ func c11Run(c *fw.Ctx) error {
 		} else {
 			c11ClientSender(c, cs)
 		}
-		c.Nontrivial(fmt.Sprintf("%s/%d/%d/%d/%d/%v", cs.Side, cs.Mode, cs.Callers, cs.Renewals, cs.StartSeq, cs.Forced))
+		c.Nontrivial(fmt.Sprintf("%s/%d/%d/%d/%d/%v/%v/%d", cs.Side, cs.Mode, cs.Callers, cs.Renewals, cs.StartSeq, cs.Forced, cs.Hazards, cs.Seed))
 		c.Class("sender:"+cs.Side, 1)
 		c.Class("mode:"+modeName(cs.Mode), 1)
 		if i%11 == 0 {
